@@ -2007,3 +2007,52 @@ Proof.
   - unfold P. split; [auto|]. split; [exact Hst|]. split; [auto|]. apply Hnd.
   - eauto.
 Qed.
+
+(** * C12-3: the converse of below_height_prompt -- an absent height is answered with ErrNotFound *)
+
+(** a call that returned a header saw it in a lookup of its own, at some instant of the schedule *)
+Lemma found_witness sched : forall s i r r' id,
+  nth_error (st_readers s) i = Some r -> r_pc r <> RDone (RFound id) ->
+  nth_error (st_readers (run sched s)) i = Some r' -> r_pc r' = RDone (RFound id) ->
+  exists k, (k < length sched)%nat /\ lookup (run (firstn k sched) s) (r_n r) = Some id.
+Proof.
+  induction sched as [|e l IH]; intros s i r r' id E Hne E' Hpc'.
+  - cbn in E'. rewrite E in E'. injection E' as <-. contradiction.
+  - change (run (e :: l) s) with (run l (step s e)) in E'.
+    destruct (own_step e i) eqn:Eo.
+    + destruct (step_own s e i r Eo E) as [b E1].
+      destruct (rpc_eq_dec (r_pc (rnext b s r)) (RDone (RFound id))) as [Hd|Hd].
+      * exists O. split; [cbn; lia|]. cbn [firstn run fold_left].
+        destruct (rnext_found b s r id Hd) as [H|H]; [contradiction|exact H].
+      * destruct (IH (step s e) i (rnext b s r) r' id E1 Hd E' Hpc') as (k & Hk & H1).
+        exists (S k). split; [cbn; lia|].
+        cbn [firstn]. change (run (e :: firstn k l) s) with (run (firstn k l) (step s e)).
+        rewrite rnext_n in H1. exact H1.
+    + destruct (step_other s e i r Eo E) as (r1 & E1 & Hrel).
+      assert (Hr1 : r_n r1 = r_n r /\ r_pc r1 <> RDone (RFound id)).
+      { destruct Hrel as [[->|[Hp ->]]|[_ ->]]; auto. rewrite n_sig_of. split; auto.
+        unfold sig_of, parked in *. destruct (r_pc r) as [| | |ph [|]| |]; try discriminate. }
+      destruct Hr1 as [Hn1 Hd1].
+      destruct (IH (step s e) i r1 r' id E1 Hd1 E' Hpc') as (k & Hk & H1).
+      exists (S k). split; [cbn; lia|].
+      cbn [firstn]. change (run (e :: firstn k l) s) with (run (firstn k l) (step s e)).
+      rewrite Hn1 in H1. exact H1.
+Qed.
+
+Lemma below_height_absent_notfound hd tl m ns q sched1 sched2 i r : wf_init hd tl m ->
+  let s := run sched1 (init hd tl m ns q) in
+  nth_error (st_readers s) i = Some r ->
+  (r_pc r = RStart \/ r_pc r = RCheck1 \/ r_pc r = RLocked) ->
+  r_n r <> 0 -> r_n r <= st_hsh s ->
+  (forall k, (k < length sched2)%nat -> lookup (run (firstn k sched2) s) (r_n r) = None) ->
+  (3 <= rd_count sched2 i)%nat ->
+  exists r', nth_error (st_readers (run sched2 s)) i = Some r' /\ r_pc r' = RDone RNotFound.
+Proof.
+  intros WF s E Hpc Hn Hh Habs Hc.
+  destruct (below_height_prompt hd tl m ns q sched1 sched2 i r WF E Hpc Hn Hh) as (r' & E' & _ & H3 & _).
+  fold s in E'. exists r'. split; [exact E'|].
+  destruct (H3 Hc) as [H|[id H]]; [exact H|]. exfalso.
+  assert (Hne : r_pc r <> RDone (RFound id)) by (destruct Hpc as [->|[->| ->]]; discriminate).
+  destruct (found_witness sched2 s i r r' id E Hne E' H) as (k & Hk & Hl).
+  rewrite (Habs k Hk) in Hl. discriminate.
+Qed.
